@@ -1408,7 +1408,7 @@ class FuncGraph:
 
     def ex_UnaryOp(self, e, env):
         v = self.expr(e.operand, env)
-        if isinstance(e.op, ast.USub) and v.op == 'const' and isinstance(v.args[0], (int, float)) and not isinstance(v.args[0], bool):
+        if isinstance(e.op, ast.USub) and v.op == 'const' and isinstance(v.args[0], (int, float, complex)) and not isinstance(v.args[0], bool):
             return const(-v.args[0], e, self.fn)
         if isinstance(e.op, ast.Not) and v.op == 'unop' and v.args[0] == 'Not':
             return v.args[1] if v.args[1].op in ('cmp', 'bool', 'unop') else self.mk('unop', ('Not', v), e)
@@ -1451,6 +1451,16 @@ class FuncGraph:
         if base.op == 'attr' and base.args[1] == 'shape' and idx.op == 'binop' and idx.args[0] == 'Sub' and idx.args[1].op == 'attr' and idx.args[1].args[1] == 'ndim' \
                 and _rank_root(idx.args[1].args[0]) is _rank_root(base.args[0]) and idx.args[2].op == 'const' and isinstance(idx.args[2].args[0], int) and idx.args[2].args[0] >= 1:
             idx = const(-idx.args[2].args[0], e, self.fn)          # x.shape[x.ndim - k] is x.shape[-k]
+        if base.op == 'attr' and base.args[1] == 'shape' and idx.op == 'slice':
+            # ... and x.shape[x.ndim - k:] is x.shape[-k:]
+            def neg(b):
+                if b.op == 'binop' and b.args[0] == 'Sub' and b.args[1].op == 'attr' and b.args[1].args[1] == 'ndim' and _rank_root(b.args[1].args[0]) is _rank_root(base.args[0]) \
+                        and b.args[2].op == 'const' and isinstance(b.args[2].args[0], int) and b.args[2].args[0] >= 1:
+                    return const(-b.args[2].args[0], e, self.fn)
+                return b
+            lo2, hi2 = neg(idx.args[0]), neg(idx.args[1])
+            if lo2 is not idx.args[0] or hi2 is not idx.args[1]:
+                idx = self.mk('slice', (lo2, hi2, idx.args[2]), idx.node)
         kd = self._keepdims_form(base, idx, e)
         if kd is not None:
             return kd
